@@ -27,17 +27,26 @@ from .common import LIB_ROOT
 M64 = (1 << 64) - 1
 
 KIND_CODE = {'L': 1, 'F': 2, 'R': 3, 'Cg': 4, 'Ch': 5, 'Cm': 6, 'Cs': 7, 'Cx': 8, 'O': 9,
-             'D+': 10, 'D-': 11, 'E': 12, 'H': 13, 'B': 14, 'X': 15}
-HOT = frozenset(('Cm', 'Cs', 'F', 'D+', 'H'))
+             'D+': 10, 'D-': 11, 'E': 12, 'H': 13, 'B': 14, 'X': 15, 'HX': 16}
+HOT = frozenset(('Cm', 'Cs', 'F', 'D+', 'H', 'HX'))
 _HOTLINES = None
 
 
+_WITHLINES = None
+
+
 def hotlines():
-    global _HOTLINES
+    global _HOTLINES, _WITHLINES
     if _HOTLINES is None:
-        from .hotlines import hot_lines
+        from .hotlines import hot_lines, with_lines
         _HOTLINES = hot_lines(LIB_ROOT)
+        _WITHLINES = with_lines(LIB_ROOT)
     return _HOTLINES
+
+
+def withlines():
+    hotlines()
+    return _WITHLINES
 
 
 def shared_roots():
@@ -45,8 +54,9 @@ def shared_roots():
 
     Returns (names, containers).  Used only to *place* pre-emptions (a frame that names such a
     container, or receives one of its elements as an argument, is about to touch shared state)."""
-    names, roots = set(), []
-    for mod in list(sys.modules.values()):
+    names, roots, labels = set(), [], []
+    for mod in sorted((m for m in list(sys.modules.values()) if getattr(m, '__file__', None)),
+                      key=lambda m: m.__name__):
         f = getattr(mod, '__file__', None)
         if not f or not f.startswith(LIB_ROOT) or (os.sep + 'tests' + os.sep) in f:
             continue
@@ -56,12 +66,14 @@ def shared_roots():
             if isinstance(v, (dict, list, set)):
                 names.add(k)
                 roots.append(v)
+                labels.append(mod.__name__.split('.')[-1] + '.' + k)
             elif isinstance(v, type) and getattr(v, '__module__', None) == mod.__name__:
                 for ck, cv in list(vars(v).items()):
                     if not ck.startswith('__') and isinstance(cv, (dict, list, set)):
                         names.add(ck)
                         roots.append(cv)
-    return names, roots
+                        labels.append(mod.__name__.split('.')[-1] + '.' + k + '.' + ck)
+    return names, roots, labels
 
 
 class AbortInjected(BaseException):
@@ -84,19 +96,41 @@ class Scheduler(object):
         self.budget = int(self.spec.get('budget', 8))
         self.bias = float(self.spec.get('bias', 0.0))
         self.probe = float(self.spec.get('probe', 0.0))
-        self.targets = set(self.spec.get('targets', ()))     # ordinals of hot points to pre-empt at
+        # conflict-directed refinement: touches of shared objects recorded in the base run, and the
+        # 'directed' mode that replays a base schedule up to one touch of a victim task, then lets
+        # the named tasks run to completion inside that window before the victim continues
+        self.task_points = [0] * ntasks
+        self.touches = []
+        self.cur_obj = None
+        self.record_touches = ntasks > 1 and self.mode in ('explore', 'directed')
+        self.victim = self.spec.get('victim')
+        self.victim_at = self.spec.get('at')
+        self.drain_queue = list(self.spec.get('drain', []))
+        self.fired = False
+        if self.mode == 'directed':
+            self.alias = True
+        self.targets = set(self.spec.get('targets') or ())     # ordinals of hot points to pre-empt at
         self.hot_ordinal = 0
-        self.alias = bool(self.spec.get('alias', False)) and trace and ntasks > 1
-        self.root_names, self.roots = (shared_roots() if self.alias else (set(), []))
+        # the alias watch always records touches in multi-task runs; the spec's 'alias' flag only
+        # decides whether its hot points also attract randomly placed pre-emptions
+        self.alias = trace and ntasks > 1
+        self.alias_bias = bool(self.spec.get('alias', False))
+        self.root_names, self.roots, self.root_labels = (shared_roots() if self.alias
+                                                          else (set(), [], []))
+        self.name_label = {}
+        for lab in self.root_labels:
+            self.name_label.setdefault(lab.rsplit('.', 1)[-1], lab)
         self.shared_ids = set()
         self.shared_sig = None
-        self.hot_frames = set()
+        self.hot_frames = {}
+        self.id_to_key = {}
         self.code_hot = {}
         self.alias_hot_points = 0
         self.call_done = [False] * ntasks
         self.return_to = None
         self.probe_runner = None
         self.hot_pending = [0] * ntasks
+        self.hot_src = [None] * ntasks
         self.probe_switches = 0
         self.hot_points = 0
         self.pick = self.spec.get('pick', 'uniform')
@@ -154,7 +188,7 @@ class Scheduler(object):
         cands = sorted(pool - {exclude}) if exclude is not None else sorted(pool)
         if not cands:
             return exclude if exclude in self.runnable else None
-        if self.mode == 'replay':
+        if self.mode in ('replay', 'directed') and not self.fired:
             while self.seg_pos < len(self.segments_in):
                 t = self.segments_in[self.seg_pos][0]
                 if t in self.runnable and t != exclude and (t not in self.blocked or t in cands):
@@ -164,6 +198,8 @@ class Scheduler(object):
                 self.seg_pos += 1
                 self.diverged = True
             self.diverged = True
+            return cands[0]
+        if self.mode == 'directed':
             return cands[0]
         if self.pick == 'prio':
             return max(cands, key=lambda t: (self.prio[t % len(self.prio)], -t))
@@ -178,10 +214,28 @@ class Scheduler(object):
         kc[kind] = kc.get(kind, 0) + 1
         if self.ntasks < 2:
             return
+        tp = self.task_points[tid] + 1
+        self.task_points[tid] = tp
+        obj = self.cur_obj
+        if obj is not None:
+            self.cur_obj = None
+            if self.record_touches and len(self.touches) < 6000:
+                self.touches.append((self.points, tid, tp, obj, kind, lineno))
         if self.points > self.max_points:
             self.capped = True
             return
-        if self.mode == 'replay':
+        if self.mode == 'directed':
+            if self.fired:
+                return                      # after the window: everybody runs to completion
+            if tid == self.victim and tp == self.victim_at:
+                self.fired = True
+                self.drain_queue = [t for t in self.drain_queue if t in self.runnable and t != tid]
+                if self.drain_queue:
+                    nxt = self.drain_queue.pop(0)
+                    self.probe_switches += 1
+                    self._switch(tid, nxt)
+                return
+        if self.mode in ('replay', 'directed'):
             if self.seg_pos < len(self.segments_in):
                 seg = self.segments_in[self.seg_pos]
                 if seg[0] != tid:
@@ -252,7 +306,7 @@ class Scheduler(object):
         if self.points > self.max_points:
             self.capped = True
             raise locks.DeadlockDetected('step cap reached while waiting for a lock')
-        if self.mode == 'replay' and self.seg_pos < len(self.segments_in) \
+        if self.mode in ('replay', 'directed') and self.seg_pos < len(self.segments_in) \
                 and self.segments_in[self.seg_pos][0] == tid:
             self.seg_pos += 1
         nxt = self._pick_next(tid)
@@ -285,35 +339,40 @@ class Scheduler(object):
         if sig == self.shared_sig:
             return
         self.shared_sig = sig
-        ids = set()
-        for r in self.roots:
-            ids.add(id(r))
+        ids = {}
+        for rn, r in zip(self.root_labels, self.roots):
+            ids[id(r)] = ('root', rn)
             try:
-                vals = list(r.values()) if isinstance(r, dict) else list(r)
-            except RuntimeError:
+                items = list(r.items()) if isinstance(r, dict) else list(enumerate(r))
+            except (RuntimeError, TypeError):
                 continue
-            for v in vals[:512]:
-                ids.add(id(v))
+            for k, v in items[:512]:
+                if isinstance(v, (int, float, str, bytes, bool, type(None), tuple, frozenset)):
+                    continue            # immutable values are not shared *state*
+                lab = ('elem', rn, repr(k)[:80])
+                ids[id(v)] = lab
                 if isinstance(v, (list, dict, set)) and len(v) <= 64:
                     for w in (v.values() if isinstance(v, dict) else v):
-                        ids.add(id(w))
+                        if not isinstance(w, (int, float, str, bytes, bool, type(None), tuple)):
+                            ids.setdefault(id(w), lab)
         self.shared_ids = ids
 
     def _frame_is_hot(self, frame):
+        """Label of the shared object this new frame is about to work on, or None."""
         code = frame.f_code
-        ch = self.code_hot.get(code)
-        if ch is None:
-            ch = self.code_hot[code] = bool(self.root_names.intersection(code.co_names))
-        if ch:
-            return True
         if code.co_argcount or code.co_kwonlyargcount:
             self._refresh_shared()
             ids = self.shared_ids
             if ids:
                 for v in frame.f_locals.values():
-                    if id(v) in ids:
-                        return True
-        return False
+                    lab = ids.get(id(v))
+                    if lab is not None:
+                        return lab
+        ch = self.code_hot.get(code)
+        if ch is None:
+            hit = sorted(self.root_names.intersection(code.co_names))
+            ch = self.code_hot[code] = ('root', self.name_label.get(hit[0], hit[0])) if hit else False
+        return ch or None
 
     def note_conflict(self, tid, kind, key):
         self.conflict.append((tid, kind, key))
@@ -322,6 +381,7 @@ class Scheduler(object):
     def _make_tracer(self, tid):
         sched = self
         hot_files = hotlines() if self.trace else {}
+        with_files = withlines()
         alias = self.alias
 
         def local(frame, event, arg):
@@ -329,6 +389,13 @@ class Scheduler(object):
                 left = sched.abort_left[tid]
                 if left:
                     left -= 1
+                    if left == 0 and (locks.HELD.get(tid, 0) > 0 or frame.f_lineno in
+                                      with_files.get(frame.f_code.co_filename, ())):
+                        # asynchronous aborts are injected outside critical sections of the library
+                        # only: the exit sequence of `with lock:` is re-visited as a line event, and
+                        # an exception raised by the tracer there would skip __exit__ - a lock leak
+                        # that a real KeyboardInterrupt cannot produce
+                        left = 1
                     sched.abort_left[tid] = left
                     if left == 0:
                         sched.abort_fired[tid] = True
@@ -338,19 +405,23 @@ class Scheduler(object):
                 if pend:
                     sched.hot_pending[tid] = pend - 1
                     sched.hot_points += 1
+                    sched.cur_obj = sched.hot_src[tid]
                     sched.yield_point(tid, 'H', frame.f_lineno)
                 elif alias and id(frame) in sched.hot_frames:
                     sched.alias_hot_points += 1
-                    sched.yield_point(tid, 'H', frame.f_lineno)
+                    sched.cur_obj = sched.hot_frames[id(frame)]
+                    sched.yield_point(tid, 'H' if sched.alias_bias else 'L', frame.f_lineno)
                 else:
                     sched.yield_point(tid, 'L', frame.f_lineno)
                 if hot_files:
                     hs = hot_files.get(frame.f_code.co_filename)
                     if hs is not None and frame.f_lineno in hs:
                         sched.hot_pending[tid] = 2
+                        sched.hot_src[tid] = ('static', '%s:%d' % (
+                            frame.f_code.co_filename[len(LIB_ROOT):], frame.f_lineno))
             elif event == 'return':
                 if alias:
-                    sched.hot_frames.discard(id(frame))
+                    sched.hot_frames.pop(id(frame), None)
                 if frame.f_code.co_name == 'dea3':
                     sched.in_dea3[tid] -= 1
                     sched.yield_point(tid, 'D-')
@@ -363,8 +434,10 @@ class Scheduler(object):
                     if code.co_name == 'dea3':
                         sched.in_dea3[tid] += 1
                         sched.yield_point(tid, 'D+')
-                    if alias and sched._frame_is_hot(frame):
-                        sched.hot_frames.add(id(frame))
+                    if alias:
+                        lab = sched._frame_is_hot(frame)
+                        if lab is not None:
+                            sched.hot_frames[id(frame)] = lab
                     return local
                 # a Python-level function of numpy / scipy / the caller entered straight from a
                 # library line: a pre-emption point in the MIDDLE of that source line
@@ -372,7 +445,12 @@ class Scheduler(object):
                 if back is not None and back.f_code.co_filename.startswith(LIB_ROOT):
                     if sched.hot_pending[tid] or (alias and id(back) in sched.hot_frames):
                         sched.alias_hot_points += 1
-                        sched.yield_point(tid, 'H', back.f_lineno)
+                        if sched.hot_pending[tid]:
+                            sched.cur_obj = sched.hot_src[tid]
+                        elif alias:
+                            sched.cur_obj = sched.hot_frames.get(id(back))
+                        sched.yield_point(tid, 'HX' if (sched.alias_bias or sched.hot_pending[tid])
+                                          else 'X', back.f_lineno)
                     else:
                         sched.yield_point(tid, 'X', back.f_lineno)
             return None
@@ -390,6 +468,7 @@ class Scheduler(object):
         """bodies: list of callables body(tid); returns when all have finished."""
         locks.ACTIVE = self
         locks.TASK_OF_THREAD.clear()
+        locks.HELD.clear()
         if self.ntasks == 1:
             self.current = 0
             locks.TASK_OF_THREAD[_thread.get_ident()] = 0
@@ -429,6 +508,22 @@ class Scheduler(object):
     def _task_done(self, tid):
         self._close_segment(tid, end=True)
         self.runnable.discard(tid)
+        if self.mode == 'directed' and self.fired:
+            nxt = None
+            while self.drain_queue and nxt is None:
+                t = self.drain_queue.pop(0)
+                if t in self.runnable:
+                    nxt = t
+            if nxt is None and self.victim in self.runnable:
+                nxt = self.victim
+            if nxt is None and self.runnable:
+                nxt = min(self.runnable)
+            self.current = nxt
+            if nxt is None:
+                self.main_sem.release()
+            else:
+                self.sems[nxt].release()
+            return
         if self.probe_runner == tid and self.return_to in self.runnable:
             back, self.return_to, self.probe_runner = self.return_to, None, None
             self.current = back
@@ -436,7 +531,7 @@ class Scheduler(object):
             return
         if self.return_to == tid:
             self.return_to = self.probe_runner = None
-        if self.mode == 'replay' and self.seg_pos < len(self.segments_in) \
+        if self.mode in ('replay', 'directed') and self.seg_pos < len(self.segments_in) \
                 and self.segments_in[self.seg_pos][0] == tid:
             self.seg_pos += 1
         if self.runnable:
@@ -456,6 +551,6 @@ class Scheduler(object):
             'probe_switch_in_miss': self.probe_switch_in_miss,
             'hot_points': self.hot_points, 'probe_switches': self.probe_switches,
             'lock_blocks': self.lock_blocks, 'alias_hot_points': self.alias_hot_points,
-            'alias_watch': self.alias,
+            'alias_watch': self.alias, 'touches': self.touches, 'directed_fired': self.fired,
             'abort_fired': list(self.abort_fired), 'errors': list(self.errors),
         }
